@@ -40,6 +40,8 @@ THEOREMS = [
     "OllamaVerif.C09.F10c_chunk_digests_from_registry",
     "OllamaVerif.C09.F10d_size_lie_overwrites_verified_blob",
     "OllamaVerif.C09.F10abc_repaired_variant",
+    "OllamaVerif.C09.pull_success_verified",
+    "OllamaVerif.C09.oversized_blob_refused_then_refetched",
     "OllamaVerif.C09.pull_success_verified_partial",
 ]
 OVERLAY = {"server/internal/client/ollama/zz_verif_c09_test.go": "server_internal_client_ollama/zz_verif_c09_test.go"}
